@@ -22,7 +22,7 @@ EXPLANATION = (
     "pandas/polars/numpy; user callbacks."
 )
 LEVEL_RULE = "one obligation per write site reaching shared state from a validate entry"
-FLOORS = {"R1": 8, "R2": 2}
+FLOORS = {"R1": 3, "R2": 2}
 
 
 def _under_lock(ix, site_qual, lineno) -> bool:
